@@ -399,6 +399,213 @@ def run_clock(ctx):
         sub, len(cases), sum(s.get("execs", 0) for s in sums), time.time() - t0))
 
 
+# ----------------------------------------------------------------------------- D. intrusive_heap
+def _bounded_cover(adj, inits, max_len, rng, extra_random=0):
+    """Walks of length <= max_len covering every edge of a (cyclic) graph: BFS path to an uncovered edge, then a greedy
+    extension over uncovered edges."""
+    covered, out = set(), []
+    for i in inits:
+        parent, order, q = {i: None}, [i], [i]
+        while q:
+            nq = []
+            for u in q:
+                for k, (v, e) in enumerate(adj.get(u, ())):
+                    if v not in parent:
+                        parent[v] = (u, k)
+                        order.append(v)
+                        nq.append(v)
+            q = nq
+        for u0 in order:
+            for k0 in range(len(adj.get(u0, ()))):
+                if (u0, k0) in covered:
+                    continue
+                pre, u = [], u0
+                while parent[u] is not None:
+                    pre.append(parent[u])
+                    u = parent[u][0]
+                pre.reverse()
+                walk = pre + [(u0, k0)]
+                covered.add((u0, k0))
+                u = adj[u0][k0][0]
+                while adj.get(u) and len(walk) < max(max_len, len(pre) + 1):
+                    nxt = [k for k in range(len(adj[u])) if (u, k) not in covered]
+                    if not nxt:
+                        break
+                    k = nxt[0]
+                    covered.add((u, k))
+                    walk.append((u, k))
+                    u = adj[u][k][0]
+                out.append([adj[a][k][1] for (a, k) in walk])
+        for _ in range(extra_random):
+            u, walk = i, []
+            while adj.get(u) and len(walk) < max_len:
+                v, e = rng.choice(adj[u])
+                walk.append(e)
+                u = v
+            out.append(walk)
+    return out
+
+
+def run_heap(ctx):
+    rep = ctx.rep
+    sub = "IntrusiveHeap"
+    edges = os.path.join(ctx.work, "heap_edges.ndjson")
+    vlib.model_check(ctx, "timer", "IntrusiveHeapMC", env={"EDGES": edges, "MUT": "none"}, workers=1, timeout=1500)
+    adj, inits, nedges = vlib.read_edges(edges)
+    walks = _bounded_cover(adj, inits, 14, ctx.rng, extra_random=(50 if ctx.quick else 2000))
+    if ctx.quick and len(walks) > 1500:
+        walks = ctx.rng.sample(walks, 1500)
+    hp = os.path.join(ctx.work, "heap_histories.ndjson")
+    with open(hp, "w") as f:
+        for w in walks:
+            f.write(json.dumps(dict(kv=w[0]["kv"], steps=[[e["op"], e["item"], e["res"], e["order"]] for e in w])) + "\n")
+    rep.sample(dict(kind="tlc-behaviour", sub=sub, keys=walks[0][0]["kv"], steps=[[e["op"], e["item"]] for e in walks[0]]))
+    exe = vlib.build(ctx, "timer_heap", ["engines/timer/driver_heap.cpp"], lib=[])
+    lp = os.path.join(ctx.work, "heap_log.ndjson")
+    t0 = time.time()
+    sums, deaths = vlib.run_batches(ctx, exe, ["--histories", hp], len(walks), lp, timeout=900)
+    rep.evaluations += sum(s.get("execs", 0) for s in sums)
+    for s in sums:
+        if s.get("drift"):
+            rep.drift += s["drift"]
+            rep.note("%s: %d steps whose observed list differs from the specification's (first %s); sent to the monitor" % (sub, s["drift"], s.get("first_mismatch")))
+    for d in deaths:
+        _death_violation(rep, sub, "heap", d, None)
+    _validate(ctx, rep, sub, "heap", lp, mon="HeapMon")
+    rep.note("%s: %d edges exported, %d histories (<= 14 steps) replayed on the real template, %.1fs incl. validation" % (
+        sub, nedges, len(walks), time.time() - t0))
+
+
+# ----------------------------------------------------------------------------- E. io_epoll_context / io_uring_context timers
+NONE = -100
+
+
+def iot_scenarios(ctx):
+    """Scenarios shared by spec/timer/IoTimers and driver_iot.cpp (ctx / bmode / race / fine are driver-only fields)."""
+    out = []
+
+    def add(due, arm=None, on=None, stop=0, stop_at=NONE, bmode="after", race="free", fine=None, tag=""):
+        n = len(due)
+        out.append(dict(due=list(due), arm=list(arm or [0] * n), on=[list(x) for x in (on or [[] for _ in range(n)])],
+                        stop=stop, stopAt=stop_at, bmode=bmode, race=race, fine=list(fine or [0] * n), tag=tag))
+    on_ = lambda n, k, acts: [acts if i == k else [] for i in range(1, n + 1)]
+    # --- core
+    add([-1, 0, 0], tag="ties-overdue")
+    add([2, 2, 2, 1], tag="ties-future")
+    add([1, 2, 2, 3], fine=[0, 0, 400, 0], tag="close-pair")
+    add([2, 1, 3, 1], tag="unordered")
+    for bm in ("before", "with", "after"):
+        add([9], stop=1, stop_at=0, bmode=bm, tag="stop-%s-far" % bm)
+        add([2, 1], stop=1, stop_at=0, bmode=bm, tag="stop-%s" % bm)
+        add([0, 0, -1], stop=2, stop_at=0, bmode=bm, tag="stop-%s-overdue" % bm)
+    add([1, 9, 2], stop=2, stop_at=1, tag="stop-pending-far")
+    add([9, 1], stop=1, stop_at=2, tag="stop-pending-far-head")
+    for rc in ("free", "io_first", "stop_first"):
+        add([2], stop=1, stop_at=2, race=rc, tag="race-%s" % rc)
+        add([1, 2, 3], stop=2, stop_at=2, race=rc, tag="race-mid-%s" % rc)
+        add([2, 2, 3], stop=1, stop_at=2, race=rc, tag="race-tie-%s" % rc)
+    add([1, 9, 2], on=on_(3, 1, [["stop", 2]]), tag="local-stop-far")
+    add([1, 2, 3], on=on_(3, 1, [["stop", 3]]), tag="local-stop")
+    add([1, 2], on=on_(2, 1, [["stop", 1]]), tag="local-stop-self")
+    add([1, 2, 2], on=on_(3, 2, [["stop", 3]]), tag="local-stop-elapsed-sibling")      # 3 is already reaped with 2
+    add([1, 9, 2], arm=[0, 0, 1], on=on_(3, 1, [["arm", 3]]), stop=2, stop_at=1, tag="local-arm")
+    add([1, 0, 3, 2], arm=[0, 1, 0, 1], on=on_(4, 1, [["arm", 2], ["arm", 4]]), tag="local-arm-overdue")
+    add([1, 9], arm=[0, 1], on=on_(2, 1, [["stop", 2], ["arm", 2]]), tag="local-stop-before-start")
+    add([1, 2, 9], arm=[0, 1, 0], on=on_(3, 1, [["arm", 2], ["stop", 3]]), tag="local-arm-and-stop")
+    core = list(out)
+    # --- generated family
+    del out[:]
+    vals = [-1, 0, 0, 1, 2, 2, 3, 9]
+    seqs = set()
+    for n in (1, 2, 3, 4):
+        for idx in itertools.permutations(range(len(vals)), n):
+            seqs.add(tuple(vals[i] for i in idx))
+    for sq in sorted(seqs):
+        n = len(sq)
+        add(sq, tag="plain")
+        for j in range(1, n + 1):
+            for bm in ("before", "with", "after"):
+                add(sq, stop=j, stop_at=0, bmode=bm, tag="stop0")
+            if 1 <= sq[j - 1] < 9:
+                for rc in ("free", "io_first", "stop_first"):
+                    add(sq, stop=j, stop_at=sq[j - 1], race=rc, tag="race")
+            if sq[j - 1] >= 2:
+                add(sq, stop=j, stop_at=1, tag="pending")
+            for k in range(1, n + 1):
+                if k != j and 1 <= sq[k - 1] < 9:
+                    add(sq, on=on_(n, k, [["stop", j]]), tag="lstop")
+                    if sq[j - 1] != sq[k - 1] or j > k:
+                        arm = [0] * n
+                        arm[j - 1] = k
+                        add(sq, arm=arm, on=on_(n, k, [["arm", j]]), tag="larm")
+    fam = list(out)
+    if MINI:
+        pick = core
+    elif ctx.quick:
+        pick = core + ctx.rng.sample(fam, 14)
+    else:
+        pick = core + ctx.rng.sample(fam, 500)
+    res = []
+    for c in ("ep", "ur"):
+        for sdef in pick:
+            s2 = dict(sdef, ctx=c, id=len(res) + 1)
+            res.append(s2)
+    return res
+
+
+def run_iot(ctx):
+    rep = ctx.rep
+    sub = "IoTimers"
+    scns = iot_scenarios(ctx)
+    # the specification does not distinguish the two contexts nor the driver-only timing fields
+    spec_scns, seen = [], set()
+    for s in scns:
+        k = json.dumps([s["due"], s["arm"], s["on"], s["stop"], s["stopAt"]])
+        if k not in seen:
+            seen.add(k)
+            spec_scns.append(dict(id=len(spec_scns) + 1, due=s["due"], arm=s["arm"], on=s["on"], stop=s["stop"], stopAt=s["stopAt"]))
+    sp = os.path.join(ctx.work, "iot_spec_scenarios.json")
+    json.dump(spec_scns, open(sp, "w"))
+    vlib.model_check(ctx, "timer", "IoTimersMC", env={"SCENARIOS": sp, "FREETICK": "0", "MUT": "none"}, timeout=2400)
+    spf = os.path.join(ctx.work, "iot_spec_scenarios_free.json")
+    json.dump(spec_scns[:(10 if ctx.quick else 120)], open(spf, "w"))
+    vlib.model_check(ctx, "timer", "IoTimersMC", cfg="IoTimersFree.cfg", env={"SCENARIOS": spf, "FREETICK": "2", "MUT": "none"}, timeout=2400)
+    exe = vlib.build(ctx, "timer_iot", ["engines/timer/driver_iot.cpp"],
+                     lib=["inplace_stop_token.cpp", "async_stack.cpp", "exception.cpp"] + vlib.LIB_LINUX)
+    t0 = time.time()
+    res = _parallel_batches(ctx, exe, lambda spx: ["--scenarios", spx, "--seed", ctx.seed], scns, "iot", timeout=1500)
+    nex = ndisc = hits = thits = 0
+    for lpx, chunk, sums, deaths in res:
+        for s in sums:
+            nex += s.get("execs", 0)
+            ndisc += s.get("discards", 0)
+            hits += s.get("hook_hits", 0)
+            thits += s.get("timer_hook_hits", 0)
+        for d in deaths:
+            sc = chunk[d["x"]] if d["x"] < len(chunk) else None
+            _death_violation(rep, sub, "realtime", d, sc, dict(context=(sc or {}).get("ctx"), tag=(sc or {}).get("tag")))
+    rep.evaluations += nex
+    merged = os.path.join(ctx.work, "iot_log.ndjson")
+    kept = 0
+    with open(merged, "w") as f:
+        for r in res:
+            for x, lines in vlib.split_executions(r[0]):
+                if any('"e":"Discard"' in l for l in lines) or len(lines) < 2:
+                    continue
+                f.writelines(lines)
+                kept += 1
+            os.remove(r[0])
+    n = _validate(ctx, rep, sub, "realtime", merged, scn_by_id={x["id"]: x for x in scns})
+    rep.note("%s: %d scenarios x {io_epoll_context, io_uring_context}: %d executions, %d discarded for timing (fence later than 5 ms before T0) and "
+             "retried, %d validated; %d schedule-point hits (%d at timer.* sites%s), %.1fs incl. validation" % (
+                 sub, len(scns) // 2, nex, ndisc, kept, hits, thits, "" if thits else ": hooks.patch not applied to this tree, race forcing inactive",
+                 time.time() - t0))
+    if n:
+        ex = vlib.split_executions(merged)[0]
+        rep.sample(dict(kind="recorded-trace", sub=sub, events=[json.loads(x) for x in ex[1][:40]]))
+    os.remove(merged)
+
+
 def _account(ctx, rep, sub, mode, sums, deaths, scn_of):
     rep.evaluations += sum(s.get("execs", 0) for s in sums)
     for s in sums:
@@ -455,5 +662,9 @@ def run(ctx):
         run_tul(ctx)
     if os.environ.get("TIMER_ONLY", "") in ("", "clock"):
         run_clock(ctx)
+    if os.environ.get("TIMER_ONLY", "") in ("", "heap"):
+        run_heap(ctx)
+    if os.environ.get("TIMER_ONLY", "") in ("", "iot"):
+        run_iot(ctx)
     rep.rule("executions = guided replays of TLC behaviours + DFS(preemption-bounded) + seeded random schedules of the real contexts "
              "+ scripted single-threaded loop scenarios + clock operator calls; distinct_nontrivial = distinct recorded event sequences with more than 3 events")
